@@ -31,6 +31,9 @@ class Model(LPModel):
         self.aux_bounds = []
         self.aux_ipc = []
         self.cvx_constr = []
+        self.ip_constr = []
+        self.pupdate = True
+        self.dupdate = True
 
     def st(self, constr):
         """
